@@ -5,7 +5,7 @@ import json, os, shutil, subprocess, sys, time
 
 src, prop = sys.argv[1], sys.argv[2]
 names = sys.argv[3:] or sorted(d for d in os.listdir(src) if os.path.isfile(os.path.join(src, d, "patch.diff")))
-WT = "/tmp/mutverify_%s" % prop
+WT = "/tmp/mutverify_%s%s" % (prop, os.environ.get("SEEDED_SUFFIX", ""))
 def sh(cmd, cwd=None, timeout=3600):
     p = subprocess.run(cmd, shell=True, cwd=cwd, capture_output=True, text=True, timeout=timeout)
     return p.returncode, (p.stdout + p.stderr)
@@ -15,7 +15,7 @@ assert rc == 0, out
 try:
     for n in names:
         d = os.path.join(src, n)
-        dst = "/verif/seeded/%s-%s" % (prop, n)
+        dst = "/verif/seeded/%s-%s%s" % (prop, n, os.environ.get("SEEDED_SUFFIX", ""))
         meta = dict(property=prop, source="independent sub-agent given only the property text and a scratch worktree", ran=[])
         rc, out = sh("git apply --check %s/patch.diff" % d, cwd=WT)
         meta["applies_to_head"] = rc == 0
